@@ -115,6 +115,21 @@ def mneed (env : Env) : Nat → String → List Selection → Nat
          | none => 0
        | _ => 0)) 2
 
+
+/-! ### selection-set ids untouched by the automatic `__typename` -/
+
+mutual
+  /-- no selection set of a composite field anywhere below has its id in `M` (the marks): the generator finds no automatic
+      `__typename` there, and `Marks.applySels M` leaves the selections as they are -/
+  def sidFree (M : List Nat) : List Selection → Bool
+    | [] => true
+    | s :: rest => sidFree1 M s && sidFree M rest
+  def sidFree1 (M : List Nat) : Selection → Bool
+    | .field _ _ _ sid sub => (sub.isEmpty || !M.contains sid) && sidFree M sub
+    | .spread _ _ => true
+    | .inline _ _ _ sub => sidFree M sub
+end
+
 /-! ### the hypothesis -/
 
 def isInlineSel : Selection → Bool
